@@ -14,6 +14,5 @@ pub fn add(v: &mut Vec<sut::Cfg>) {
     toy_cfg!(v, U4, U16, "t", add_ctr32);
     toy_cfg!(v, U5, U3, "t");
     toy_cfg!(v, U7, U1, "t");
-    toy_cfg!(v, U4, U7, "t", add_ctr32);
     toy_cfg!(v, U5, U6, "t");
 }
